@@ -427,6 +427,8 @@ CORPUS = [
     (0, "subsetcard", ["--eq", "5"]), (0, "subsetcard", ["-e=e", "5"]), (0, "subsetcard", ["5", "--", "3"]),
     (0, "stone", ["2", "--sparse=--", "007", "pyramid", "2"]), (0, "stone", ["2", "pyramid", "2", "--sparse=--"]),
     (0, "stone", ["--", "2", "--"]), (0, "iso", ["a", "-e--"]), (0, "iso", ["a", "-e=--"]), (0, "subgraph", ["-G--", "-H", "b"]),
+    (0, "and", ["--", "2", "--"]), (0, "or", ["--", "--", "2"]), (0, "and", ["--", "--"]), (0, "or", ["2", "--", "--"]),
+    (0, "ram", ["--", "2", "--", "3"]), (0, "vdw", ["5", "2", "2"]), (0, "vdw", ["5", "2", "--", "2"]),
     (0, "tseitin", ["--", "--", "--"]), (0, "tseitin", ["--", "5", "--", "--"]), (0, "op", ["--", "--", "5"]), (0, "op", ["--", "5", "--", "--"]),
     (0, "cpls", ["--", "2", "--", "2"]), (0, "cpls", ["2", "--", "--", "2"]), (0, "ram", ["--", "--", "--", "--"]),
     (0, "vdw", ["--", "5", "--", "2", "2"]), (0, "vdw", ["--", "5", "2", "2", "--"]), (0, "php", ["--", "--"]), (0, "php", ["--", "3", "--"]),
